@@ -6,13 +6,13 @@ META = {
     'technique': 'Coq theorems over the executable Plan model of parallel_for / for_each (body invocations, who runs them, happens-before order; '
                  'concurrency = antichains of that order) built on leaves regenerated from the C++ source + correspondence: the real templates '
                  'driven by an instrumented task set (exact plan, compared inside Coq) and by the real ThreadPool with rendezvous bodies '
-                 '(high-water mark of concurrent bodies); deterministic replays for the two refutation witnesses',
-    'text': 'C48_refuted / C48_refuted_override: the faithful model has antichains larger than max(1,maxThreads) in two disjoint domains (static '
-            'no-wait granularity tail; explicit chunk size with range.size() <= poolThreads + wait, where adjustChunkSizing overwrites maxThreads); '
-            'both reproduced on the real code.  C48_holds_except: outside c48_dom every set of pairwise unordered invocations has at most '
-            'max(1,maxThreads) elements, for all index kinds, modes, granularities, wait modes, pool sizes, ring indices and claim schedules. '
-            'C48_serial: maxThreads in {0,1} gives one invocation on the caller (outside the override domain).  C48_foreach: for_each_n uses at most '
-            'max(1,maxThreads) chunks.  C48_override_domain characterises the second domain (explicit chunk, dynamic path).',
+                 '(high-water mark of concurrent bodies); deterministic replays for the refutation witness and the regression witness',
+    'text': 'C48_refuted: the faithful model has an antichain larger than max(1,maxThreads) for the static no-wait granularity tail (reproduced on the '
+            'real code).  C48_holds_except: outside c48_dom every set of pairwise unordered invocations has at most max(1,maxThreads) elements, for '
+            'all index kinds, modes, granularities, wait modes, pool sizes, ring indices and claim schedules.  C48_serial: maxThreads in {0,1} gives one '
+            'invocation on the caller.  C48_limit_respected: adjustChunkSizing never raises the thread count above the limit (the repaired finding '
+            'explicit-chunk-small-range-ignores-maxThreads; its witness is the Example C48_override_regression and is replayed on every run). '
+            'C48_foreach: for_each_n uses at most max(1,maxThreads) chunks.',
     'note': 'Trusted: Coq kernel; tools/translate.py + clang AST for the leaves; the plan glue of Model/PlanModel.v / ForEachModel.v is tied by the '
             'correspondence only; harness/h_loops.cpp, harness/h_parfor.cpp.  Print Assumptions: closed.',
 }
@@ -38,27 +38,25 @@ def run(ctx):
     ctx.phase('translate')
     ctx.prove(models=['Model/C48Check.v', 'Base/Corr.v'])
 
-    # ---- deterministic witnesses of the two known findings, replayed first (real TaskSet + ThreadPool)
+    # ---- deterministic witness of the known finding, replayed first (real TaskSet + ThreadPool)
     w = plan_common.ovl(ctx, '4 2 8 1003 s 0')
     ctx.cov['witness_static_nowait_tail'] = w
     if w and w['maxconc'] > 2:
         ctx.violation('parallel_for static, wait=false, granularity 8, maxThreads 2, int64 [0,1003), 4-thread pool: %d body invocations were active at '
                       'the same time (2 scheduled chunks + the tail on the calling thread)' % w['maxconc'],
                       {'finding_key': plan_common.KEY_TAIL, 'cmd': 'echo "ovl 4 2 8 1003 s 0" | build/harness/h_loops-*', 'observed': w})
+    # ---- regression: the witness of the repaired finding explicit-chunk-small-range-ignores-maxThreads
     exe = pf_common.harness()
     wline = 'pf 4 0 5 c 1 7 2 1 1 1 4 0'
-    best = None
-    for _ in range(3):
+    worst = None
+    for _ in range(2):
         p = pf_common.parse_pf(plan_common.run_lines(exe, [wline])[0])
-        if p and (best is None or p['maxconc'] > best['maxconc']):
-            best = p
-        if best and best['maxconc'] > 2:
-            break
-    ctx.cov['witness_override'] = best
-    if best and best['maxconc'] > 2:
-        ctx.violation('parallel_for explicit chunk 1, int32 [0,5), 7-thread pool, maxThreads 2, wait=true: %d body invocations active at the same time, '
-                      '%d states (adjustChunkSizing set maxThreads = range.size() - wait = 4)' % (best['maxconc'], best['nstates']),
-                      {'finding_key': plan_common.KEY_OVERRIDE, 'cmd': 'echo "%s" | build/harness/h_parfor-*' % wline, 'observed': best})
+        if p and (worst is None or p['maxconc'] > worst['maxconc']):
+            worst = p
+    ctx.cov['regression_override'] = worst
+    if worst is None or worst['maxconc'] > 2 or worst['nstates'] != 2:
+        ctx.violation('parallel_for explicit chunk 1, int32 [0,5), 7-thread pool, maxThreads 2, wait=true: %s (expected at most 2 concurrent bodies on 2 states)'
+                      % (worst,), {'cmd': 'echo "%s" | build/harness/h_parfor-*' % wline, 'observed': worst})
     ctx.phase('witness')
 
     nplan = 180 if ctx.quick else 6000
@@ -98,7 +96,7 @@ def run(ctx):
         ctx.broken.append('correspondence D(C48): the model no longer evaluates (see coq_eval_errors)')
         return
     hist = {'agree_and_property_holds': 0, 'differs_but_property_holds': 0, 'property_fails_in_known_domain': 0, 'property_fails': 0,
-            'configs_in_dom_tail': sum(1 for v in res[3] if v == 1), 'configs_in_dom_override': sum(1 for v in res[3] if v == 2)}
+            'configs_in_dom_tail': sum(1 for v in res[3] if v == 1)}
     if any(v == 9 for v in res[3]):
         i = [k for k, v in enumerate(res[3]) if v == 9][0]
         ctx.broken.append('model cross-check: plan width exceeds the limit but the configuration is outside c48_dom (or vice versa): %s' % all_cfgs[i])
@@ -117,9 +115,9 @@ def run(ctx):
             else:
                 text = 'more than max(1,maxThreads) body invocations were active at the same time: %s -> %s' % (line(c), str(p)[:400])
                 rep = {'case': c, 'cmd': line(c), 'harness': 'h_loops' if kind == 'plan' else 'h_parfor', 'observed': p}
-                if dom in (1, 2):
+                if dom == 1:
                     hist['property_fails_in_known_domain'] += 1
-                    rep['finding_key'] = plan_common.KEY_TAIL if dom == 1 else plan_common.KEY_OVERRIDE
+                    rep['finding_key'] = plan_common.KEY_TAIL
                 else:
                     hist['property_fails'] += 1
                 ctx.violation(text, rep)
